@@ -78,6 +78,9 @@ pub fn run(thorough: bool) -> Vec<Part> {
             pieces.push(connx::piece("h_long_bad_tail1", connx::Class::Header, &mk(b"X-a: ", b - 1, b, b + 4)));
             pieces.push(connx::piece("h_long_bad_all", connx::Class::Header, &mk(b"X-a: ", 5, b + 2, b + 4)));
             pieces.push(connx::piece("rl_long_bad_tail", connx::Class::ReqLine, &mk(b"GET /", b - 2, b, b + 4)));
+            // header lines whose value is empty or blank (each recognised header has its own arm)
+            pieces.push(connx::piece("h_ae_empty", connx::Class::Header, b"Accept-Encoding:\r\n"));
+            pieces.push(connx::piece("h_cl_blank", connx::Class::Header, b"Content-Length: \r\n"));
         }
         let mut cfg = Cfg::base("C03", "robust-alphabet", pieces, 40);
         cfg.robust_only = true;
